@@ -655,6 +655,32 @@ func expandCore(p *packages.Package, src []byte, call *ast.CallExpr, c *candidat
 			}
 		}
 	}
+	// names of package-level (or predeclared / imported-package) things the body refers to must mean the same thing at the
+	// call site: a local of the caller with the same name would capture them
+	if scope := p.Types.Scope().Innermost(call.Pos()); scope != nil {
+		captured := false
+		ast.Inspect(fd.Body, func(nd ast.Node) bool {
+			id, ok := nd.(*ast.Ident)
+			if !ok {
+				return true
+			}
+			o := p.TypesInfo.Uses[id]
+			if o == nil {
+				return true
+			}
+			_, isPkgName := o.(*types.PkgName)
+			if !isPkgName && o.Parent() != p.Types.Scope() && o.Parent() != types.Universe {
+				return true
+			}
+			if _, found := scope.LookupParent(id.Name, call.Pos()); found != o {
+				captured = true
+			}
+			return true
+		})
+		if captured {
+			return "", nil, false
+		}
+	}
 	// body edits: identifier renames and return rewriting (not inside function literals for returns)
 	var edits []edit
 	bodyStart, bodyEnd := off(fd.Body.Lbrace)+1, off(fd.Body.Rbrace)
